@@ -21,6 +21,7 @@ var checks = map[string]struct {
 	"C15": {"exploration", c15},
 	"C25": {"exploration", c25},
 	"C27": {"exploration", c27},
+	"C28": {"exploration", c28},
 }
 
 func main() {
